@@ -65,6 +65,8 @@ def cases(rng, tier):
         out.append({"f": "like", "lens": lens, "which": rng.choice(["zeros", "ones", "empty"]), "dtype": dt(), "vseed": vs})
         out.append({"f": "nonzero", "lens": lens, "mask": _rand_mask(rng, lens), "dtype": rng.choice(["bool", "int64", "uint8", "float64"]), "vseed": vs})
         out.append({"f": "where", "lens": lens, "mask": _rand_mask(rng, lens), "y": rng.choice(["ragged", "scalar"]), "dtype": dt(), "vseed": vs})
+        # the masking idiom np.where(mask, x, 0) on float cells with infinities / NaN also where the mask is False
+        out.append({"f": "where", "lens": lens, "mask": _rand_mask(rng, lens), "y": "zero", "dtype": rng.choice(["float64", "float32", "float64", "int64"]), "vseed": vs})
         # x and y ragged with DIFFERENT dtypes: the result has numpy's promoted dtype, cell by cell
         out.append({"f": "where", "lens": lens, "mask": _rand_mask(rng, lens), "y": "ragged", "dtype": dt(), "ydtype": dt(), "vseed": vs})
         for f in ("subset", "mask_index"):
@@ -171,6 +173,11 @@ def _setup(p):
             return _pool(p, p["n"])
         return _pool(p, p["r"] * p["c"]).reshape(p["r"], p["c"])
     vals = _pool(p, sum(p["lens"]) * 2 + 2)
+    if p.get("y") == "zero":
+        vals = vals.copy()
+        if vals.dtype.kind == "f":
+            vals[: sum(p["lens"]) : 2] = np.array([np.inf, -np.inf, np.nan] * (len(vals) // 3 + 1), dtype=vals.dtype)[: len(vals[: sum(p["lens"]) : 2])]
+        vals[2 * sum(p["lens"])] = 0
     return vals
 
 
@@ -229,7 +236,7 @@ def run_impl(p):
                 if p.get("mh") and mflat.size:
                     m = _mask_with_history(p, ra, mflat)
                 if f == "where":
-                    y = RaggedArray(s[n:2 * n].copy(), list(p["lens"])) if p["y"] == "ragged" else s[2 * n].item()
+                    y = RaggedArray(s[n:2 * n].copy(), list(p["lens"])) if p["y"] == "ragged" else (0 if (p["vseed"] % 2 or s.dtype.kind != "f") else 0.0) if p["y"] == "zero" else s[2 * n].item()
                     if "ydtype" in p:
                         y = RaggedArray(gens.cell_values(p["ydtype"], n, random.Random(p["vseed"] + 1)), list(p["lens"]))
                     return np.where(m, ra, y)
